@@ -7,8 +7,9 @@
       (`cOnline`), then poll `has_pending_operations` (`cPoll`); `write()` split into its four real
       steps `_ack_event.clear()` (`wClear`), `printcore.send` → priority queue (`wEnq`),
       `_ack_event.wait()` returning (`wWake`), `_abort_on_device_error()` (`wFinish`);
-      `disconnect(wait=True)` (`cDisc`, the poll of `_wait_for_pending_operations` finding nothing
-      pending, or raising the stored error while something is pending);
+      `disconnect(wait=True)` (`cDisc`): `_wait_for_pending_operations` raises a stored error - while
+      something is pending or, repaired code, once more after the loop - and otherwise returns when
+      nothing is pending (`cPoll` is the same function called by `connect()`);
     * **reader thread** — `_listen_until_online` sending a probe `G4 P0` (`lProbe`, again after 15
       empty reads) and one received line handed to `recvcb = _on_device_message` and then to
       `_listen` (`lListen`); a read error / end of stream (`xLoss`);
@@ -163,14 +164,14 @@ def stepLive (s : St) : Act → Option St
       else none
   | .cPoll =>
       if s.cphase = .waitPending then
-        if pending s then
-          if s.err then some { s with err := false, dueErr := false, cphase := .failed } else none
+        if s.err then some { s with err := false, dueErr := false, cphase := .failed }
+        else if pending s then none
         else some { s with cphase := .connected }
       else none
   | .cDisc =>
       if s.cphase = .connected then
-        if pending s then
-          if s.err then some { s with err := false, dueErr := false, cphase := .disconnected, discRaised := true } else none
+        if s.err then some { s with err := false, dueErr := false, cphase := .disconnected, discRaised := true }
+        else if pending s then none
         else some { s with cphase := .disconnected }
       else none
   | .wClear =>
